@@ -559,6 +559,12 @@ func (bm *booksModel) reclaim(hw *histWorld, w *bWallet, res string, got uint64,
 	if !bm.active(hw) {
 		return
 	}
+	if err != nil && len(hw.b.mints) > 1 {
+		// the Go iterates a map of mints and returns at the first error: which mints were already processed is not
+		// determined by the request; the model (fixed order) is not comparable for the rest of this history
+		bm.resync(hw, "reclaim: error exit of a loop over a Go map of mints")
+		return
+	}
 	op := L(A("reclaim"), I(hw.mw(w)), lnSx([]string{res, res, res, res, res, res}))
 	ma, ok := bm.ask(hw, op)
 	if !ok {
@@ -570,6 +576,10 @@ func (bm *booksModel) reclaim(hw *histWorld, w *bWallet, res string, got uint64,
 
 func (bm *booksModel) removeSpent(hw *histWorld, w *bWallet, res string, err error) {
 	if !bm.active(hw) {
+		return
+	}
+	if err != nil && len(hw.b.mints) > 1 {
+		bm.resync(hw, "removespent: error exit of a loop over a Go map of mints")
 		return
 	}
 	op := L(A("removespent"), I(hw.mw(w)), lnSx([]string{res, res, res, res, res, res}))
